@@ -5,6 +5,19 @@
    fallback (inf, nan, 0x1p4), which the old parseNumber also accepted. *)
 From GL Require Import Common.Bytes Text.NumRead.
 
+(* strconv.ParseInt(s, base, 64) for 2 <= base <= 36, as the old baseToNumber called it *)
+Definition go_parse_int (s : bytes) (b : Z) : option Z :=
+  if negb ((2 <=? b) && (b <=? 36)) then None else
+  let '(k, u) := strip_sign s in
+  match u with
+  | [] => None
+  | _ => match radix_val b u 0 with
+         | Some n => if k =? 1 then (if n <? 2 ^ 63 then Some n else None)
+                     else (if n <=? 2 ^ 63 then Some (- n) else None)
+         | None => None
+         end
+  end.
+
 Definition is_blank_old (c : Z) : bool := (c =? 32) || (c =? 9) || (c =? 10).
 Definition trim_old (s : bytes) : bytes := rev (dropwhile is_blank_old (rev (dropwhile is_blank_old s))).
 
